@@ -87,7 +87,7 @@ pub struct Env {
     pub spent: Vec<OutRef>,
 }
 
-fn spent_on_chain(b: &mut Builder, tip: &Hash) -> Vec<OutRef> {
+pub fn spent_on_chain(b: &mut Builder, tip: &Hash) -> Vec<OutRef> {
     let mut spent = vec![];
     let anc = b.store.ancestors(tip);
     for w in anc.windows(2) {
